@@ -12,7 +12,8 @@ RULE = ('generated modules in ctrl mode: nested block/loop/if/else with and with
         'blocks with their own branches), counter-bounded loops with early exits, select/drop/nop, 0-12 extra locals of mixed '
         'types read before written, local.tee; recursive functions (self / mutual, the call last in the body, in front of return, at '
         'the end of an arm or block, or not in tail position) whose declared locals are read at entry and non-zero at the call: '
-        'every activation starts with zeroed locals; env.trace(i32) host calls and global.set mark the executed path. Oracle = '
+        'every activation starts with zeroed locals; groups of functions with byte-identical bodies but different signatures '
+        '(type-agnostic bodies: local.get/set/tee, select, drop, return); env.trace(i32) host calls and global.set mark the executed path. Oracle = '
         'return value or trap AND the ordered host-call trace of the reference interpreter. Non-trivial = the executed path '
         'contains a value-carrying branch across >=1 enclosing label or with extra operands below the value, a br_table whose '
         'index is out of range (default), a not-taken if without else, a loop back-edge, a local read before any write, a '
